@@ -19,6 +19,14 @@ GEN = os.path.join(BUILD, "gen")
 PURE_GO_VM_ONLY = {"vm_state.go", "vm_multicall.go", "internal_operations.go", "ethstorageproof.go",
                    "statesql_params.go"}
 
+def write_atomic(path, text):
+    """concurrent checks regenerate the same files: readers must never see a half-written one"""
+    tmp = "%s.%d.tmp" % (path, os.getpid())
+    with open(tmp, "w") as f:
+        f.write(text)
+    os.replace(tmp, path)
+
+
 def main():
     os.makedirs(GEN, exist_ok=True)
     replace = {}
@@ -35,7 +43,7 @@ def main():
                 out = re.sub(r'(?m)^import "C"\s*$', "", src, count=1)
                 g = os.path.join(GEN, "contract.go")
                 if not os.path.exists(g) or open(g).read() != out:
-                    open(g, "w").write(out)
+                    write_atomic(g, out)
                 replace[p] = g
             elif re.search(r'(?m)^import "C"', src) or fn in PURE_GO_VM_ONLY or fn.endswith("_test.go"):
                 replace[p] = ""
@@ -44,7 +52,7 @@ def main():
     txt = ("//go:build verif\n\npackage contract\n\nconst (\n\tstateSQLMaxDBSize = 4 * 1024 * 1024\n"
            "\tstateSQLMinDBSize = 10\n)\n")
     if not os.path.exists(g) or open(g).read() != txt:
-        open(g, "w").write(txt)
+        write_atomic(g, txt)
     replace[os.path.join(cdir, "verif_consts.go")] = g
 
     hroot = os.path.join(VERIF, "harness")
@@ -68,8 +76,7 @@ def main():
             else:
                 replace[os.path.join(REPO, rel, fn)] = src
     out = os.path.join(BUILD, "overlay.json")
-    with open(out, "w") as f:
-        json.dump({"Replace": replace}, f, indent=1, sort_keys=True)
+    write_atomic(out, json.dumps({"Replace": replace}, indent=1, sort_keys=True))
     print(out)
 
 if __name__ == "__main__":
